@@ -6,7 +6,8 @@ a plan {k: j}, raises `simplifier.TimeoutException`
 
   * j >= 0 : at the j-th 'line' event of the frame that entered the `with` (frame-local
              tracing: `f_trace` is set on exactly that frame; callees are not traced), i.e.
-             just before the (j+1)-th line of the body starts executing;
+             just before the (j+1)-th line of the body starts executing (events of bare `try:` lines and
+             immediately repeated events of one line are not counted, see `_local`);
   * j == -1: after the body has completed, from `__exit__` (the real SIGALRM handler can fire
              inside the generator's `finally`, before `signal.alarm(0)` has run).
 
@@ -75,6 +76,7 @@ def scan_blocks(path):
                                 handler_lines=(lo, hi), handler_src=hsrc)
 
     visit(tree, None, [])
+    out["try_lines"] = sorted(n.lineno for n in ast.walk(tree) if isinstance(n, ast.Try))
     return out, bad
 
 
@@ -87,6 +89,7 @@ class Injector:
         self.k = 0
         self.blocks = []          # one record per entered block
         self.scan, self.scan_bad = scan_blocks(simplifier.__file__)
+        self.try_lines = set(self.scan.pop("try_lines"))
 
     def install(self):
         self.S.time_limit = self.time_limit
@@ -123,6 +126,7 @@ class _Block:
             self.rec["lines"] = []
             self.rec["pre"] = inj.snap(frame, self.rec)
             self.n = 0
+            self.last = None
             sys.settrace(Injector._global)
             frame.f_trace = self._local
             frame.f_trace_lines = True
@@ -133,6 +137,12 @@ class _Block:
             ln = frame.f_lineno
             if ln == self.rec["with_line"]:
                 return self._local         # normal exit of the body; `__exit__` follows
+            # CPython 3.12 quirk (measured, see C15 notes): an exception raised by a line-trace callback at the event of a
+            # bare `try:` line, or at a repeated event of the line just reported (backward jump inside a one-line loop /
+            # inlined comprehension), bypasses the frame's exception table.  Such events are not interrupt positions here.
+            if ln == self.last or ln in self.inj.try_lines:
+                return self._local
+            self.last = ln
             if self.j is not None and self.j >= 0 and self.n == self.j:
                 self._fire(frame, ln)
                 raise self.inj.S.TimeoutException("injected at block %d line-event %d (source line %d)" % (self.k, self.j, ln))
